@@ -242,6 +242,7 @@ impl Run {
         if monitor {
             let mut m = crate::props::c11::Monitor::new(&r.w.case.path, c.cfg.shard_count);
             m.tolerate_id_reuse = crate::props::c11::TOLERATE_ID_REUSE.load(std::sync::atomic::Ordering::Relaxed);
+            m.tolerate_empty_orphan = crate::props::c11::TOLERATE_EMPTY_ORPHAN.load(std::sync::atomic::Ordering::Relaxed);
             r.snapshots = Some(m);
         }
         Ok(r)
